@@ -89,7 +89,7 @@ def run_case(ctx, case):
            ('sampling=%d' % RC.effective_sampling(case),)]
     results = {}
     for tag in (False, True):
-        if case['form'] in ('series', 'serieslist') and tag:
+        if case['form'] in RC.SERIES_FORMS and tag:
             continue                     # pdextract has no tag option
         try:
             x = RC.run_extractor(case, tag=tag)
